@@ -21,7 +21,7 @@ warnings.filterwarnings("ignore")
 
 DT = torch.float64
 KINDS = ["regular", "nested", "lazy", "sub", "tensorclass", "memmap", "shared", "params", "locked"]
-LAYOUTS = ["contiguous", "strided", "expanded", "offset", "zero_feat", "zero_batch", "mixed", "nontensor"]
+LAYOUTS = ["contiguous", "strided", "expanded", "offset", "zero_feat", "zero_batch", "mixed", "nontensor", "dtypes"]
 LOCKED_KINDS = ("memmap", "shared", "params", "locked")
 
 
@@ -180,7 +180,7 @@ def tc_class():
 def leaf_layout(layout, rng):
     if layout == "mixed":
         return rng.choice(["contiguous", "strided", "expanded", "offset"])
-    if layout in ("zero_feat", "zero_batch", "nontensor"):
+    if layout in ("zero_feat", "zero_batch", "nontensor", "dtypes"):
         return "contiguous"
     return layout
 
@@ -192,7 +192,13 @@ def build_plain(bs, layout, cnt, rng, nested, zero_feat):
         d["n"] = TensorDict({"x": make_leaf(tuple(bs) + (1,), leaf_layout(layout, rng), cnt)}, batch_size=bs)
     if zero_feat:
         d["z"] = torch.zeros(tuple(bs) + (0,), dtype=DT)
-    out = TensorDict(d, batch_size=bs)
+    if layout == "dtypes":
+        # entries of several dtypes (the library has dtype / tensor-type specific fast paths, e.g. in _clone_recurse)
+        d["b"] = d["b"].to(torch.int64)
+        d["f"] = make_leaf(tuple(bs) + (1,), "contiguous", cnt).to(torch.float32)
+        d["m"] = (make_leaf(tuple(bs), "contiguous", cnt) % 2 == 0)
+    # with an explicit device the library takes other code paths (e.g. clone -> _clone_recurse)
+    out = TensorDict(d, batch_size=bs, device="cpu" if layout == "dtypes" else None)
     if layout == "nontensor":
         out.set_non_tensor("tag", "meta")      # a non-tensor entry next to the tensors
     return out
@@ -222,7 +228,7 @@ class Container:
             self.td = big._get_sub_tensordict(slice(1, 3))
             self.extra = leaves_of(big, "src:")
         elif kind == "tensorclass":
-            inner = build_plain(bs, "contiguous" if layout == "nontensor" else layout, self.cnt, rng, True, zf)   # the class has no field for the extra non-tensor entry
+            inner = build_plain(bs, "contiguous" if layout in ("nontensor", "dtypes") else layout, self.cnt, rng, True, zf)   # the class has no field for the extra entries
             self.td = tc_class().from_tensordict(inner)
         elif kind == "memmap":
             inner = build_plain(bs, "contiguous" if layout not in ("zero_feat", "zero_batch") else layout, self.cnt, rng, True, False)
